@@ -6,7 +6,9 @@ import BufProofs.Lemmas.GenerateLemmas
   `pluginRequests img cfg` are the CodeGeneratorRequests one local plugin receives
   (strategy all: the image itself; strategy directory: `ImageByDir`), `allGenerated` the
   concatenation of their `file_to_generate` lists.  Images are assumed to have pairwise
-  distinct paths (`NewImage` rejects anything else).
+  distinct paths (`NewImage` rejects anything else).  Theorems about the ORDER of a request
+  assume the input image is `Ordered` (the documented contract of `bufimage.Image`);
+  `built_image_ordered` proves it for every image the build (C01's model) produces.
 -/
 namespace BufProofs.C17
 open BufModel.Path BufModel.Bucket BufModel.Generate
@@ -172,6 +174,43 @@ theorem imports_reachable_once (img : Image) (cfg : PluginCfg) (ho : Ordered img
   have : paths (r.protoFiles.map (·.1)) = r.protoFiles.map (·.1.path) := by simp [paths]
   rw [← this, hri]; exact hgi
 
+/-- Every image the build produces (`BufModel.Targeting.buildImage`, the model of
+    `bufimage.BuildImage` of property C01) is `Ordered` when read as a C17 image (`ofBuilt`:
+    dependencies = what the compiler says the file imports; `w` = `datawkt.Exists`): C01's
+    `image_nodup` and `image_topological`.  This discharges the hypothesis `Ordered img` of
+    `request_closed_and_ordered` / `imports_reachable_once` for `buf generate` on sources.
+    For an image read from a file the order is the documented precondition of
+    `bufimage.NewImage` ("The input ImageFiles are expected to be in correct DAG order!",
+    bufimage.go) — not checked by the code, hence a hypothesis here. -/
+theorem built_image_ordered (t : BufModel.Targeting.TWS) (c : BufModel.Targeting.Compiler)
+    (perm : List Str → List Str) (bimg : List BufModel.Targeting.ImgFile)
+    (h : BufModel.Targeting.buildImage t c perm = .ok bimg) (w : Str → Bool) :
+    Ordered (ofBuilt c w bimg) := ordered_of_buildImage t c perm bimg h w
+
+/-- `request_closed_and_ordered` without any hypothesis on the image, for built images: in
+    every request a plugin receives, each file's imports (all of them: a built image is closed)
+    are listed before it, and every file to generate has its descriptor. -/
+theorem built_request_closed_and_ordered (t : BufModel.Targeting.TWS) (c : BufModel.Targeting.Compiler)
+    (perm : List Str → List Str) (bimg : List BufModel.Targeting.ImgFile)
+    (h : BufModel.Targeting.buildImage t c perm = .ok bimg) (w : Str → Bool) (cfg : PluginCfg) :
+    ∀ r ∈ pluginRequests (ofBuilt c w bimg) cfg,
+      (∀ pre x post, r.protoFiles.map (·.1) = pre ++ x :: post → ∀ d ∈ x.deps, d ∈ paths pre) ∧
+      (∀ p ∈ r.toGenerate, p ∈ paths (r.protoFiles.map (·.1))) := by
+  intro r hr
+  have ho := ordered_of_buildImage t c perm bimg h w
+  obtain ⟨h1, h2⟩ := request_closed_and_ordered (ofBuilt c w bimg) cfg ho r hr
+  refine ⟨?_, h2⟩
+  intro pre x post e d hd
+  apply h1 pre x post e d hd
+  -- closed: every import of an image file is in the image (C01 `image_closed`)
+  have hx : x ∈ r.protoFiles.map (·.1) := by rw [e]; simp
+  obtain ⟨g, hg, hp, _, hdeps⟩ :=
+    stratImages_files (ofBuilt c w bimg) cfg _ (request_files_mem_stratImages (ofBuilt c w bimg) cfg r hr) x hx
+  unfold ofBuilt at hg
+  obtain ⟨bf, hbf, rfl⟩ := List.mem_map.mp hg
+  rw [paths_ofBuilt]
+  exact BufProofs.C01.image_closed t c perm bimg h bf hbf d (by rw [hdeps] at hd; exact hd)
+
 /-- Source-retention options are removed only from the runtime view: in every request the
     proto_file entry of a file is stripped iff the file is in file_to_generate, and the
     (unstripped) source_file_descriptors are exactly the files to generate. -/
@@ -202,26 +241,48 @@ theorem strategy_all_single_request (img : Image) (cfg : PluginCfg) (hs : cfg.st
 /-! ### Response side -/
 
 /-- Whatever names the plugins return — "../x", "/abs", "a//b", "./c", anything — if the run
-    succeeds, every object that is flushed lives in the bucket of some plugin's (absolute) out
-    directory and its key is a validated relative path: proper name components only (no "..",
-    ".", empty or separator-bearing component), at least one; hence the file written,
-    `out/key`, is beneath that plugin's out directory (`BufModel.Path.validate_sound`, C13). -/
+    succeeds (working directory absolute, as `os.Getwd` returns it):
+    (1) every object that is flushed was returned as a plain file by a plugin `p` of this run,
+        sits in the bucket of THAT plugin's absolute out directory under the validated form of
+        the name it returned, and the file written on disk, `diskPath out key` (= `storageos`'s
+        `Join(root, key)`), is the out directory's components followed by the key's components:
+        proper name components only (no "..", ".", empty or separator-bearing component), at
+        least one below the out directory — i.e. the file is beneath that plugin's out;
+    (2) per plugin, forward: every file a plugin returned (plain or insertion point) is written
+        in that plugin's own out directory, under its validated name.
+    So nothing is written outside the out directory of the plugin that returned it. -/
 theorem writes_under_out (cwd : Str) (ps : List PluginResp) (bs : Buckets)
-    (h : runResponses cwd ps = .ok bs) :
-    ∀ x ∈ flushed bs, (∃ p ∈ ps, x.1 = absPath cwd p.out) ∧
-      ∃ ns : Key, AllProper ns ∧ ns ≠ [] ∧ x.2.1 = renderKey ns := by
+    (hcwd : isAbs cwd = true) (h : runResponses cwd ps = .ok bs) :
+    (∀ x ∈ flushed bs, ∃ p ∈ ps, ∃ f ∈ p.files, f.insertionPoint = [] ∧
+      x.1 = absPath cwd p.out ∧ validatePath f.name = .ok x.2.1 ∧
+      ∃ os ns : List Comp, AllProper os ∧ AllProper ns ∧ ns ≠ [] ∧
+        absPath cwd p.out = '/' :: joinSlash os ∧ x.2.1 = renderKey ns ∧
+        diskPath x.1 x.2.1 = '/' :: joinSlash (os ++ ns)) ∧
+    (∀ p ∈ ps, ∀ f ∈ p.files, ∃ k c, validatePath f.name = .ok k ∧
+      (absPath cwd p.out, k, c) ∈ flushed bs) := by
   unfold runResponses runResponsesWith at h
   split at h
   · cases h
-  · obtain ⟨hprov, _⟩ := addResponses_inv cwd ps ps [] bs (fun p hp => hp)
-      (by intro o m hm; cases hm) h
-    intro x hx
-    unfold flushed at hx
-    obtain ⟨⟨o, m⟩, hom, hxm⟩ := List.mem_flatMap.mp hx
-    obtain ⟨⟨k, c⟩, hkc, rfl⟩ := List.mem_map.mp hxm
-    have hk : k ∈ m.keys := List.mem_map.mpr ⟨(k, c), hkc, rfl⟩
-    obtain ⟨p, hp, hpo, f, _, _, hv⟩ := hprov o m hom k hk
-    exact ⟨⟨p, hp, hpo.symm⟩, validatePath_keyOK hv⟩
+  · constructor
+    · obtain ⟨hprov, _⟩ := addResponses_inv cwd ps ps [] bs (fun p hp => hp)
+        (by intro o m hm; cases hm) h
+      intro x hx
+      unfold flushed at hx
+      obtain ⟨⟨o, m⟩, hom, hxm⟩ := List.mem_flatMap.mp hx
+      obtain ⟨⟨k, c⟩, hkc, rfl⟩ := List.mem_map.mp hxm
+      have hk : k ∈ m.keys := List.mem_map.mpr ⟨(k, c), hkc, rfl⟩
+      obtain ⟨p, hp, hpo, f, hf, hip, hv⟩ := hprov o m hom k hk
+      obtain ⟨ns, hns, hne, hkn⟩ := validatePath_keyOK hv
+      obtain ⟨os, hos, hshape⟩ := absPath_shape cwd p.out hcwd
+      refine ⟨p, hp, f, hf, hip, hpo.symm, hv, os, ns, hos, hns, hne, hshape, hkn, ?_⟩
+      show diskPath o k = _
+      rw [← hpo, hshape, hkn]
+      exact diskPath_shape hos hns
+    · obtain ⟨_, hfwd⟩ := addResponses_fwd cwd ps [] bs h
+      intro p hp f hf
+      obtain ⟨k, hk, hh⟩ := hfwd p hp f hf
+      obtain ⟨c, hc⟩ := hasKey_flushed hh
+      exact ⟨k, c, hk, hc⟩
 
 /-- Insertion points only modify files produced in the same run: if the run succeeds, every
     insertion-point file names (after validation) a file that a plugin of this very run, with
@@ -321,6 +382,21 @@ example : Reach exImage "b/z.proto".toList "google/protobuf/any.proto".toList :=
   exact .step h1 ⟨⟨"common/c.proto".toList, true, false, ["google/protobuf/any.proto".toList]⟩,
     by decide, rfl, by decide⟩ (by decide)
 
+-- the hypothesis of `built_image_ordered` / `built_request_closed_and_ordered` is satisfiable
+-- (C01's example workspace: a.proto imports b.proto of another module and a WKT), and the
+-- resulting C17 image is the ordered one
+example : ∃ bimg, BufModel.Targeting.buildImage BufProofs.C01.exWs BufProofs.C01.exC id = .ok bimg := by
+  have h : (BufModel.Targeting.buildImage BufProofs.C01.exWs BufProofs.C01.exC id).toBool = true := by decide
+  cases hb : BufModel.Targeting.buildImage BufProofs.C01.exWs BufProofs.C01.exC id with
+  | error e => rw [hb] at h; cases h
+  | ok b => exact ⟨b, rfl⟩
+example : (BufModel.Targeting.buildImage BufProofs.C01.exWs BufProofs.C01.exC id).map (fun bimg =>
+    (ofBuilt BufProofs.C01.exC (fun p => p = "google/protobuf/any.proto".toList) bimg).map
+      (fun f => (String.ofList f.path, f.isImport, f.isWKT, f.deps.map String.ofList))) =
+    .ok [("b.proto", true, false, []), ("google/protobuf/any.proto", true, true, []),
+     ("a.proto", false, false, ["b.proto", "google/protobuf/any.proto"])] := by decide
+-- the working directory of `writes_under_out` is absolute in every response example below
+example : isAbs "/w".toList = true := by decide
 -- responses: a successful run with a hostile-looking but valid spelling and an insertion point
 -- from a second plugin that shares the out directory under another spelling
 example : runResponses "/w".toList
